@@ -59,14 +59,23 @@ where
 
         // If the ratio of the variance between dimensions is too small, it will cause
         // numerical errors. We address this by artificially boosting the variance
-        // by `epsilon` (a small fraction of the variance of the largest feature)
-        let epsilon = self.var_smoothing() * *x.var_axis(Axis(0), F::zero()).max()?;
+        // by `epsilon` (a small fraction of the variance of the largest feature, taken
+        // over all the data the model has seen so far)
+        let first_call = model_in.is_none();
 
         let mut model = match model_in {
             Some(mut temp) => {
+                // Remove the boost added by the previous call. The stored variances are
+                // `var + epsilon_old` with `epsilon_old = var_smoothing * max(total variance)`,
+                // so the pooled variance of the stored values is `total variance + epsilon_old`
+                // and `epsilon_old` can be recovered from the stored statistics alone.
+                let epsilon_old = match Self::max_pooled_variance(&temp.class_info) {
+                    Some(v) => self.var_smoothing() * v / (F::one() + self.var_smoothing()),
+                    None => F::zero(),
+                };
                 temp.class_info
                     .values_mut()
-                    .for_each(|x| x.sigma -= epsilon);
+                    .for_each(|x| x.sigma -= epsilon_old);
                 temp
             }
             None => GaussianNb {
@@ -97,8 +106,16 @@ where
             class_info.class_count += nclass;
         }
 
-        // We add back the epsilon previously subtracted for numerical
-        // calculation stability
+        // We add the boost computed from everything seen so far (on the first call that is
+        // just the variance of the batch)
+        let epsilon = if first_call {
+            self.var_smoothing() * *x.var_axis(Axis(0), F::zero()).max()?
+        } else {
+            match Self::max_pooled_variance(&model.class_info) {
+                Some(v) => self.var_smoothing() * v,
+                None => F::zero(),
+            }
+        };
         model
             .class_info
             .values_mut()
@@ -137,6 +154,24 @@ impl<F, L> GaussianNbValidParams<F, L>
 where
     F: Float,
 {
+    // Largest per-feature variance of all the samples summarised by `class_info`, pooled over
+    // the classes (law of total variance): sum_c w_c (sigma_c + theta_c^2) - (sum_c w_c theta_c)^2
+    fn max_pooled_variance(class_info: &HashMap<L, GaussianClassInfo<F>>) -> Option<F> {
+        let total = class_info.values().map(|x| x.class_count).sum::<usize>();
+        let mut infos = class_info.values().filter(|x| x.class_count > 0);
+        let first = infos.next()?;
+        let weight = |info: &GaussianClassInfo<F>| F::cast(info.class_count) / F::cast(total);
+        let mut mean = &first.theta * weight(first);
+        let mut second_moment = (&first.sigma + &first.theta.mapv(|x| x.powi(2))) * weight(first);
+        for info in infos {
+            mean = mean + &info.theta * weight(info);
+            second_moment =
+                second_moment + (&info.sigma + &info.theta.mapv(|x| x.powi(2))) * weight(info);
+        }
+        let variance = second_moment - mean.mapv(|x| x.powi(2));
+        variance.max().ok().copied()
+    }
+
     // Compute online update of gaussian mean and variance
     fn update_mean_variance(
         info_old: &GaussianClassInfo<F>,
